@@ -25,7 +25,7 @@ ASSUMPTIONS = [
 REQUIRED_COUNTERS = ['orders_checked', 'permutations_checked']
 D = decimal.Decimal
 CLASSES = ['int', 'float', 'decimal', 'mixed', 'huge', 'highprec', 'negzero', 'text', 'text_unicode',
-           'num_num', 'num_text', 'text_num', 'fmt_pad', 'fmt_sep', 'callable']
+           'num_num', 'num_text', 'text_num', 'fmt_pad', 'fmt_sep', 'callable', 'multi_resource']
 
 
 def gen_cases(tier, seed):
@@ -71,9 +71,62 @@ def exact(v):
     return D(v) if isinstance(v, (int, float)) else v
 
 
+def run_multi(case, rng):
+    """One sort_rows step over several resources whose same-named key field has different types / key mixes:
+    every selected resource must be sorted on its own terms (no state carried from one resource to the next)."""
+    d = lab.df()
+    counters = {'orders_checked': 0, 'permutations_checked': 0}
+    cov = {'class_x_form': {}, 'regime': {'memory': 1}}
+    viol = []
+    kinds = [rng.choice(['text', 'int', 'mixed', 'decimal', 'float']) for _ in range(rng.choice([2, 3]))]
+    if len(set(kinds)) == 1:
+        kinds[0] = 'text' if kinds[0] != 'text' else 'mixed'
+    reverse = rng.random() < 0.3
+    key = rng.choice(['{k}', ['k']])
+    tables, steps = [], []
+    for j, kd in enumerate(kinds):
+        n = rng.choice([0, 1, 5, 40, 200])
+        if j == 0 and n == 0:
+            n = 5
+        rows = [{'id': j * 10000 + i, 'k': keyval(rng, kd)} for i in range(n)]
+        tables.append(rows)
+        steps.append(lab.source('res%d' % j, [{'name': 'id', 'type': 'integer'},
+                                              {'name': 'k', 'type': 'string' if kd == 'text' else 'number'}], rows))
+    sel = rng.choice([None, None, ['res%d' % j for j in range(len(kinds))], 'res.*'])
+    steps.append(d.sort_rows(key, resources=sel, reverse=reverse))
+    cfg = {'class': 'multi_resource', 'kinds': kinds, 'reverse': reverse, 'selector': sel, 'sizes': [len(t) for t in tables]}
+    cov['class_x_form']['multi_resource/' + '+'.join(kinds)] = 1
+    got = lab.run(steps)
+
+    def add(kind, msg):
+        viol.append({'kind': kind, 'mech': 'multi_resource', 'key_class': 'multi_resource',
+                     'msg': '%r: %s' % (cfg, msg), 'config': cfg})
+    if not got.ok:
+        add('unexpected_error', got.errstr())
+        return dict(nontrivial=False, violations=viol, cov=cov, counters=counters)
+    nontrivial = False
+    for j, (rows, out) in enumerate(zip(tables, got.results)):
+        asc = [r for _, r in sorted(enumerate(rows), key=lambda p: (exact(p[1]['k']), p[0]))]
+        exp = list(reversed(asc)) if reverse else asc
+        counters['permutations_checked'] += 1
+        counters['orders_checked'] += 1
+        if [r['id'] for r in out] != [r['id'] for r in exp]:
+            pos = next((i for i, (a, b) in enumerate(zip(out, exp)) if a['id'] != b['id']), min(len(out), len(exp)))
+            add('order', 'resource #%d (key type %s, sorted after %r): first difference at position %d: got %r expected %r'
+                % (j, kinds[j], kinds[:j], pos, out[pos:pos + 2], exp[pos:pos + 2]))
+            break
+        ks = [exact(r['k']) for r in rows]
+        if len(set(map(str, ks))) >= 2:
+            nontrivial = True
+    return dict(nontrivial=nontrivial and len(tables) >= 2, violations=viol, cov=cov, counters=counters,
+                sample={'config': cfg})
+
+
 def run_case(case):
     c = case['family']
     rng = boot.rng(case['seed'], 'C12', c, case['idx'])
+    if c == 'multi_resource':
+        return run_multi(case, rng)
     d = lab.df()
     counters = {'orders_checked': 0, 'permutations_checked': 0}
     cov = {'class_x_form': {}, 'regime': {}}
